@@ -763,6 +763,41 @@ impl Item {
     }
 }
 
+/// The item that contains a type declaration: an interface (with its name,
+/// if it has one) or a world.
+///
+/// A declared type is also an export of the interface or an import of the
+/// world; the container determines how a clash with an existing export or
+/// import of the same name (e.g. a function declared earlier) is reported.
+#[derive(Debug, Copy, Clone)]
+enum Container<'a> {
+    Interface(Option<&'a str>),
+    World(&'a str),
+}
+
+impl Container<'_> {
+    /// The error for a declaration whose name is already an export of the
+    /// interface or an import of the world.
+    ///
+    /// This is the same error that is reported when the declarations appear
+    /// in the opposite order.
+    fn duplicate(&self, id: &ast::Ident) -> Error {
+        match self {
+            Self::Interface(name) => Error::DuplicateInterfaceExport {
+                name: id.string.to_owned(),
+                interface_name: name.map(ToOwned::to_owned),
+                span: id.span,
+            },
+            Self::World(world) => Error::DuplicateWorldItem {
+                kind: ExternKind::Import,
+                name: id.string.to_owned(),
+                world: (*world).to_owned(),
+                span: id.span,
+            },
+        }
+    }
+}
+
 #[derive(Default)]
 struct Scope(IndexMap<String, (Item, SourceSpan)>);
 
@@ -1584,7 +1619,7 @@ impl<'a> AstResolver<'a> {
                     self.use_type(state, u, &mut ty.uses, &mut ty.imports, packages, true)?
                 }
                 ast::WorldItem::Type(decl) => {
-                    self.item_type_decl(state, decl, &mut ty.imports)?;
+                    self.item_type_decl(state, decl, &mut ty.imports, Container::World(world))?;
                 }
                 ast::WorldItem::Import(i) => {
                     self.world_item_path(state, &i.path, ExternKind::Import, world, packages, ty)?
@@ -1905,7 +1940,7 @@ impl<'a> AstResolver<'a> {
                     self.use_type(state, u, &mut ty.uses, &mut ty.exports, packages, false)?
                 }
                 ast::InterfaceItem::Type(decl) => {
-                    self.item_type_decl(state, decl, &mut ty.exports)?;
+                    self.item_type_decl(state, decl, &mut ty.exports, Container::Interface(name))?;
                 }
                 ast::InterfaceItem::Export(e) => {
                     let kind = ItemKind::Func(self.func_type_ref(state, &e.ty, FuncKind::Free)?);
@@ -2020,9 +2055,12 @@ impl<'a> AstResolver<'a> {
         state: &mut State,
         decl: &'a ast::ItemTypeDecl,
         externs: &mut IndexMap<String, ItemKind>,
+        container: Container,
     ) -> ResolutionResult<()> {
         let (insert, ty) = match decl {
-            ast::ItemTypeDecl::Resource(r) => (false, self.resource_decl(state, r, externs)?),
+            ast::ItemTypeDecl::Resource(r) => {
+                (false, self.resource_decl(state, r, externs, container)?)
+            }
             ast::ItemTypeDecl::Variant(v) => (true, self.variant_decl(state, v, true)?),
             ast::ItemTypeDecl::Record(r) => (true, self.record_decl(state, r, true)?),
             ast::ItemTypeDecl::Flags(f) => (true, self.flags_decl(state, f, true)?),
@@ -2031,8 +2069,14 @@ impl<'a> AstResolver<'a> {
         };
 
         if insert {
-            let prev = externs.insert(decl.id().string.into(), ItemKind::Type(ty));
-            assert!(prev.is_none(), "duplicate type in scope");
+            // The name is new in the scope, but it may already be taken by an
+            // export of the interface (or import of the world) that is not a
+            // type, e.g. a function
+            if externs.contains_key(decl.id().string) {
+                return Err(container.duplicate(decl.id()));
+            }
+
+            externs.insert(decl.id().string.into(), ItemKind::Type(ty));
         }
 
         Ok(())
@@ -2043,6 +2087,7 @@ impl<'a> AstResolver<'a> {
         state: &mut State,
         decl: &ast::ResourceDecl<'a>,
         externs: &mut IndexMap<String, ItemKind>,
+        container: Container,
     ) -> ResolutionResult<Type> {
         log::debug!(
             "resolving resource declaration for id `{id}`",
@@ -2058,9 +2103,13 @@ impl<'a> AstResolver<'a> {
         let ty = Type::Resource(id);
         state.register_name(decl.id, Item::Type(ty))?;
 
-        // We must add the resource to the externs before any methods
-        let prev = externs.insert(decl.id.string.into(), ItemKind::Type(ty));
-        assert!(prev.is_none());
+        // We must add the resource to the externs before any methods; the name
+        // may already be taken by an export (or import) that is not a type
+        if externs.contains_key(decl.id.string) {
+            return Err(container.duplicate(&decl.id));
+        }
+
+        externs.insert(decl.id.string.into(), ItemKind::Type(ty));
 
         let mut names = HashSet::new();
         for method in &decl.methods {
